@@ -35,6 +35,15 @@ TNext == /\ l <= Len(Trace) /\ l' = l + 1
               [] E.ev = "move"  -> (IF written THEN Move ELSE UNCHANGED rvars) /\ Judge(E)
               [] E.ev = "mark"  -> Mark /\ Judge(E)
               [] E.ev = "reset" -> Reset /\ Judge(E)
+              [] E.ev = "conc"  -> \* concurrent use, the FrameLoop's own locking: a producer that fills Current() and moves on, as
+                                   \* the frame loop does, while CopyRecent is called from another goroutine.  Every copy must be
+                                   \* one whole frame of the history (`torn` counts copies mixing two frames), and the frame that
+                                   \* was the one before the current one at some moment of the call (`stale`: outside the moves
+                                   \* counted before and after the call).
+                                   /\ UNCHANGED rvars
+                                   /\ (IF E.torn = 0 /\ E.stale = 0 THEN TRUE
+                                       ELSE PrintT(<<"VIOL", l, (IF E.torn > 0 THEN {"C19:recent-mixes-two-frames[concurrent-move]"} ELSE {})
+                                                                \cup (IF E.stale > 0 THEN {"C19:recent-not-the-frame-before-current[concurrent-move]"} ELSE {})>>))
               [] E.ev = "panic" -> /\ UNCHANGED rvars       \* a query or operation of the real ring panicked (rest of the script dropped)
                                    /\ PrintT(<<"VIOL", l, {"C19:panic"}>>)
 Consumed == TLCGet("stats").diameter - 1 = Len(Trace)
